@@ -35,6 +35,7 @@ Disagreements(runs) ==
 \* head_content names: equal names exactly for equal rendered content; equal content once per document
 Injective(p) == /\ (p.nameA = p.nameB) = p.sameContent
                 /\ p.countInDoc = (IF p.sameContent THEN 1 ELSE 2)
+                /\ p.countInText = (IF p.sameContent THEN 1 ELSE 2)
 
 InvNoDuplicateBeforeRepeat == ~repeated => Cardinality(Used) = Len(order)
 Export == Complete =>
